@@ -109,13 +109,47 @@ def value_range(true_atoms, false_atoms):
     return neg, lo, hi, known
 
 
+class ValTok:
+    """stands for `self.left` holding a Value object (not a string): equal to no string, member of no table"""
+    def __repr__(self):
+        return "<value>"
+
+
+VAL = ValTok()
+LEFT_KINDS = ["", "A", "B", "D", VAL]
+
+
+def make_resolver(repo, fn):
+    from ..inline import _callee
+
+    def resolve(call):
+        callee, bound = _callee(repo, fn, call)
+        if callee is None:
+            return None
+        params = [a.arg for a in callee.node.args.args]
+        if params and params[0] in ("self", "cls"):
+            params = params[1:]
+        return callee.node, params
+    return resolve
+
+
 def analyse_class(ctx, cls, indirect):
+    """for every (register half, offset kind) of the finite operand grammar plus probe spellings: the outcomes of translate()"""
+    from ..inline import flatten
     fn = ctx.repo.method(cls, "translate", inherited=False)
-    cap = 20000 if ctx.tier == "quick" else 500000
-    it = Interp(fn.node, sym_attrs=("_sz",), maxpaths=cap,
-                universes={"self.right": GRAMMAR_RIGHT + PROBES_RIGHT, "self.left": LEFT_UNIVERSE})
-    res = it.run()
-    return fn, res
+    node = flatten(ctx.repo, fn, depth=2)
+    cap = 4000 if ctx.tier == "quick" else 100000
+    consts = dict(ctx.env)
+    consts.update({"str": str, "int": int, "list": list})
+    resolver = make_resolver(ctx.repo, fn)
+    results = []
+    for right in GRAMMAR_RIGHT + PROBES_RIGHT:
+        for left in LEFT_KINDS:
+            it = Interp(node, consts=consts, sym_attrs=("_sz",), maxpaths=cap, resolver=resolver,
+                        init_env={"self.right": Const(right), "self.left": Const(left)})
+            for o in it.run():
+                results.append((right, left, o))
+    return fn, results
 
 
 def _cached(ctx, cls, indirect):
@@ -135,9 +169,9 @@ def _judge(ctx, c_enc1, c_enc2, c_enc3, c_enc4, c_enc6, cls, indirect):
     where0 = repo.loc(fn, fn.node)
     IND = mc6809.INDIRECT_BIT if indirect else 0
     forms_reached = set()
-    invalid_accepted = {}     # category -> set of probes
+    invalid_accepted = {}
     n_paths = 0
-    seen = {}                 # (collector id, site, fact, verdict) -> first where  (dedupe identical outcome facts)
+    seen = {}
 
     def emit(c, verdict, site, fact, text="", where=""):
         if c is None:
@@ -153,20 +187,17 @@ def _judge(ctx, c_enc1, c_enc2, c_enc3, c_enc4, c_enc6, cls, indirect):
         else:
             c.undecided(site, fact, text, where)
 
-    for o in res:
+    for right, left, o in res:
         if o.kind != "return":
             continue
         v = o.value
+        where = repo.loc(fn, o.node)
         if not (isinstance(v, Ctor) and v.cls == "CodePackage"):
-            emit(c_enc1, "undecided", site0, "return-not-CodePackage", repr(v)[:80], repo.loc(fn, o.node))
+            emit(c_enc1, "undecided", site0, "return-not-CodePackage", repr(v)[:80], where)
             continue
         n_paths += 1
-        where = repo.loc(fn, o.node)
         kw = v.kw
         ta, fa = o.path.true_atoms(), o.path.false_atoms()
-        rights = candidates(o.path.conds, "self.right", GRAMMAR_RIGHT + PROBES_RIGHT)
-        lefts = candidates(o.path.conds, "self.left", LEFT_UNIVERSE)
-        zero_left = "type(self.left) != str" in ta and "self.left.is_numeric()" in ta and "self.left.int == 0" in ta
         post = post_of(kw.get("post_byte"))
         size_inc = lin_inc(kw.get("size"), "ind_sz")
         max_inc = lin_inc(kw.get("max_size"), "ind_sz")
@@ -175,10 +206,12 @@ def _judge(ctx, c_enc1, c_enc2, c_enc3, c_enc4, c_enc6, cls, indirect):
         choices = kw.get("post_byte_choices")
         choices = choices.v if isinstance(choices, Const) else ([] if choices is None else None)
         add = kw.get("additional")
-        has_right_atoms = any(parse_atom(a)[0] != "other" and "self.right" in a for a, _ in o.path.conds)
+        uses_lr = any(("self.left" in a or "self.right" in a) for a, _ in o.path.conds) or any(
+            "self.left" in repr(x) or "self.right" in repr(x) for x in kw.values())
+        early_value = any(strip_ver(a).startswith("self.value.is_") and t for a, t in o.path.conds)
 
-        # ---- [n] extended indirect (no left/right involved)
-        if indirect and not has_right_atoms:
+        # ---- [n] extended indirect: decided on self.value alone
+        if indirect and early_value and isinstance(add, Opq) and add.text.startswith("self.value"):
             forms_reached.add("[n]")
             site = site0 + ":[n]"
             if post is None or post[1]:
@@ -196,217 +229,206 @@ def _judge(ctx, c_enc1, c_enc2, c_enc3, c_enc4, c_enc6, cls, indirect):
                      "%s: [n] returns max_size != size" % cls, where)
             continue
 
-        valid_rights = [s for s in rights if s in GRAMMAR_RIGHT]
-        probe_rights = [s for s in rights if s in PROBES_RIGHT]
-        # left kinds consistent with this path
-        kinds = []
-        for k in lefts:
-            if k == "<val>":
-                kinds.append("zero" if zero_left else "<val>")
-            else:
-                if zero_left:
-                    continue
-                kinds.append(k)
-        kinds = list(dict.fromkeys(kinds))
+        zero_left = left is VAL and any(strip_ver(a) == "self.left.int == 0" and t for a, t in o.path.conds) and any(strip_ver(a) == "self.left.is_numeric()" and t for a, t in o.path.conds)
+        if left is VAL and not zero_left and any(strip_ver(a) == "self.left.int == 0" and t for a, t in o.path.conds) and \
+                not any(strip_ver(a) == "self.left.is_numeric()" and t for a, t in o.path.conds):
+            emit(c_enc1, "finding", site0 + ":zero-offset-guard", "an offset whose .int is 0 is taken for 'no offset' without being numeric",
+                 "%s.translate() treats any offset value with .int == 0 as absent; a label on the first statement (index 0) or an unresolved value also has .int 0, "
+                 "so `L,PCR` / `L,X` with L on the first line is encoded as `,R`" % cls, where)
+            continue
+        kind = "zero" if zero_left else ("<val>" if left is VAL else left)
+        f0, reg = reg_form(right)
+        valid_right = right in GRAMMAR_RIGHT
 
-        # ---- ENC-4: returns realised by operands outside the grammar
-        for s in probe_rights:
-            invalid_accepted.setdefault("register-half-outside-grammar", set()).add(s or "(empty)")
-        for s in valid_rights:
-            for k in kinds:
-                f, r = reg_form(s)
-                if k in ("A", "B", "D") and s not in PLAIN:
-                    invalid_accepted.setdefault("accumulator-offset-with-%s" % ("PCR" if s == "PCR" else "auto-inc/dec"), set()).add("%s,%s" % (k, s))
-                if k in ("", "zero") and s == "PCR":
-                    invalid_accepted.setdefault("PCR-without-offset", set()).add("%s,PCR" % ("0" if k == "zero" else ""))
-                if k == "zero" and s not in PLAIN and s != "PCR":
-                    invalid_accepted.setdefault("zero-offset-with-auto-inc/dec", set()).add("0,%s" % s)
-                if indirect and k == "" and f in (",R+", ",-R"):
-                    invalid_accepted.setdefault("indirect-single-inc/dec", set()).add("[,%s]" % s)
+        # ---- ENC-4: a return for an operand outside the grammar
+        if not valid_right:
+            invalid_accepted.setdefault("register-half-outside-grammar", set()).add(right or "(empty)")
+            continue
+        if kind in ("A", "B", "D") and right not in PLAIN:
+            invalid_accepted.setdefault("accumulator-offset-with-%s" % ("PCR" if right == "PCR" else "auto-inc/dec"), set()).add("%s,%s" % (kind, right))
+            continue
+        if kind in ("", "zero") and right == "PCR":
+            invalid_accepted.setdefault("PCR-without-offset", set()).add("%s,PCR" % ("0" if kind == "zero" else ""))
+            continue
+        if kind == "zero" and right not in PLAIN:
+            invalid_accepted.setdefault("zero-offset-with-auto-inc/dec", set()).add("0,%s" % right)
+            continue
+        if indirect and kind == "" and f0 in (",R+", ",-R"):
+            invalid_accepted.setdefault("indirect-single-inc/dec", set()).add("[,%s]" % right)
+            continue
+        if kind == "<val>" and right not in PLAIN and right != "PCR":
+            invalid_accepted.setdefault("constant-offset-with-auto-inc/dec", set()).add("n,%s" % right)
+            continue
 
         if post is None:
             emit(c_enc1, "undecided", site0, "post-byte-not-abstractable", repr(kw.get("post_byte"))[:80], where)
             continue
         mask, opaque = post
-
-        for s in valid_rights:
-            f0, reg = reg_form(s)
-            regbits = mc6809.INDEX_REG_BITS.get(reg, 0) if reg else 0
-            for k in kinds:
-                form = None
-                exp_core = None
-                extra = None
-                if k in ("", "zero"):
-                    if s == "PCR" or (k == "zero" and s not in PLAIN):
-                        continue
-                    if indirect and f0 in (",R+", ",-R"):
-                        continue
-                    form = f0
-                elif k in ("A", "B", "D"):
-                    if s not in PLAIN:
-                        continue
-                    form = "%s,R" % k
+        regbits = mc6809.INDEX_REG_BITS.get(reg, 0) if reg else 0
+        if kind in ("", "zero"):
+            form = f0
+        elif kind in ("A", "B", "D"):
+            form = "%s,R" % kind
+        else:
+            form = "n,R" if right in PLAIN else "n,PCR"
+        site = "%s:%s" % (site0, form)
+        if form in mc6809.INDEXED_FORMS:
+            exp_core, extra, _ = mc6809.INDEXED_FORMS[form]
+            forms_reached.add(form)
+            if opaque:
+                emit(c_enc1, "undecided", site, "opaque-post-byte", repr(opaque)[:60], where)
+                continue
+            want = exp_core | regbits | IND
+            emit(c_enc1, "ok" if mask == want else "finding", site + "/" + reg,
+                 "post=%#04x" % want if mask == want else "post=%#04x(datasheet %#04x)" % (mask, want),
+                 "%s: %s must have post-byte %02X, path emits %02X" % (cls, form.replace("R", reg), want, mask), where)
+            w = width_of(add, None, None)
+            _three_way(emit, c_enc2, c_enc3, site, cls, form, extra, size_inc, max_inc, w, choices, where)
+            if anr:
+                emit(c_enc6, "finding", site, "needs-resolution-without-offset", "%s: path for %s sets additional_needs_resolution" % (cls, form), where)
+            continue
+        if form == "n,R":
+            neg, lo, hi, known = value_range(ta, fa)
+            if anr:
+                emit(c_enc6, "finding", site0 + ":label,R", "label-as-constant-offset-encoded-from-statement-index",
+                     "%s: a label used as constant index offset (LDA L,X) reaches the constant-offset arms with its statement "
+                     "index as magnitude and additional_needs_resolution set; fix_addresses then treats the offset as a PCR target" % cls, where)
+                continue
+            if anr is None:
+                emit(c_enc6, "undecided", site0 + ":label,R", "needs-resolution-flag-not-constant", "", where)
+                continue
+            if not known:
+                sitex = site0 + ":sym,R"
+                forms_reached.add("sym,R")
+                core = mask & ~0x60
+                if opaque or core not in (0x88 | IND, 0x89 | IND):
+                    emit(c_enc1, "undecided", sitex, "post=%#04x%s" % (mask, "|opaque" if opaque else ""), "", where)
                 else:
-                    if s in PLAIN:
-                        form = "n,R"
-                    elif s == "PCR":
-                        form = "n,PCR"
+                    emit(c_enc1, "ok" if (mask & 0x60) == regbits else "finding", sitex + "/" + reg, "post=%#04x" % mask,
+                         "%s: register bits %02X for register %s" % (cls, mask & 0x60, reg), where)
+                emit(c_enc2, "ok", sitex, "self-sized(size += additional.byte_len())", "", where)
+                continue
+            cls4 = hi <= (16 if neg else 15)
+            cls8 = hi <= (128 if neg else 127)
+            sign = "-" if neg else ""
+            valclass = "n5" if cls4 else ("n8" if cls8 else "n16")
+            sitev = "%s:%s%s,R" % (site0, sign, valclass)
+            core = mask & ~0x60
+            if not (mask & 0x80):
+                chosen = "n5"
+            elif core == (0x88 | IND):
+                chosen = "n8"
+            elif core == (0x89 | IND):
+                chosen = "n16"
+            else:
+                chosen = "?%#04x" % core
+            allowed = {"n5": ["n5", "n8", "n16"], "n8": ["n8", "n16"], "n16": ["n16"]}[valclass]
+            if indirect:
+                allowed = [a for a in allowed if a != "n5"]
+            forms_reached.add(chosen + ",R")
+            if chosen not in allowed:
+                emit(c_enc1, "finding", sitev + "/" + reg, "form=%s,post=%#04x" % (chosen, mask),
+                     "%s: offset %s%d..%s%d with register %s is encoded with post-byte %02X (%s form), which cannot hold it or does not exist"
+                     % (cls, sign, lo, sign, hi, reg, mask, chosen), where)
+                continue
+            if chosen == "n5":
+                bad = None
+                undec = False
+                for n in range(lo, hi + 1):
+                    val = mask
+                    for oq in opaque:
+                        x = av_int(oq, n)
+                        if x is None:
+                            undec = True
+                            break
+                        val |= x
+                    if undec:
+                        break
+                    want = regbits | ((-n if neg else n) & 0x1F)
+                    if val != want:
+                        bad = (n, val, want)
+                        break
+                if undec:
+                    emit(c_enc1, "undecided", sitev, "5-bit-encoding-not-evaluable", repr(opaque)[:60], where)
+                elif bad:
+                    emit(c_enc1, "finding", sitev + "/" + reg, "5bit(%s%d)=%#04x(datasheet %#04x)" % (sign, bad[0], bad[1], bad[2]),
+                         "%s: 5-bit offset %s%d,%s encodes as %02X, datasheet %02X" % (cls, sign, bad[0], reg, bad[1], bad[2]), where)
+                else:
+                    emit(c_enc1, "ok", sitev + "/" + reg, "5bit two's complement for %s%d..%s%d" % (sign, lo, sign, hi), "", where)
+                extra = 0
+            else:
+                if opaque:
+                    emit(c_enc1, "undecided", sitev, "opaque-post-byte", repr(opaque)[:60], where)
+                else:
+                    emit(c_enc1, "ok" if (mask & 0x60) == regbits else "finding", sitev + "/" + reg, "post=%#04x" % mask,
+                         "%s: register bits %02X for %s" % (cls, mask & 0x60, reg), where)
+                extra = 1 if chosen == "n8" else 2
+                if isinstance(add, Ctor) and add.cls == "NumericValue" and add.args:
+                    okc = True
+                    for n in (lo, hi, (lo + hi) // 2):
+                        x = av_int(add.args[0], n)
+                        if x is None:
+                            okc = None
+                            break
+                        want = (-n if neg else n) & ((1 << (8 * extra)) - 1)
+                        if x != want:
+                            okc = (n, x, want)
+                            break
+                    if okc is None:
+                        emit(c_enc1, "undecided", sitev, "offset-content-not-evaluable", repr(add)[:60], where)
+                    elif okc is not True:
+                        emit(c_enc1, "finding", sitev, "offset(%s%d)=%#x(two's complement %#x)" % (sign, okc[0], okc[1], okc[2]),
+                             "%s: offset %s%d is emitted as %X, two's complement in %d byte(s) is %X" % (cls, sign, okc[0], okc[1], extra, okc[2]), where)
                     else:
-                        continue   # the code raises for these; a return here is covered by valid forms only
-                site = "%s:%s" % (site0, form)
-                if form in mc6809.INDEXED_FORMS:
-                    exp_core, extra, _ = mc6809.INDEXED_FORMS[form]
-                    forms_reached.add(form)
-                    if opaque:
-                        emit(c_enc1, "undecided", site, "opaque-post-byte", repr(opaque)[:60], where)
-                        continue
-                    want = exp_core | regbits | IND
-                    emit(c_enc1, "ok" if mask == want else "finding", site + "/" + reg,
-                         "post=%#04x" % want if mask == want else "post=%#04x(datasheet %#04x)" % (mask, want),
-                         "%s: %s with register %s must have post-byte %02X, path emits %02X" % (cls, form.replace("R", reg), reg, want, mask), where)
-                    w = width_of(add, None, None)
-                    _three_way(emit, c_enc2, c_enc3, site, cls, form, extra, size_inc, max_inc, w, choices, where)
-                    if anr:
-                        emit(c_enc6, "finding", site, "needs-resolution-without-offset", "%s: path for %s sets additional_needs_resolution" % (cls, form), where)
+                        emit(c_enc1, "ok", sitev, "offset bytes = two's complement", "", where)
+            w = width_of(add, lo, hi)
+            _three_way(emit, c_enc2, c_enc3, sitev, cls, sign + chosen + ",R", extra, size_inc, max_inc, w, choices, where)
+            continue
+        if form == "n,PCR":
+            if anr:
+                sitep = site0 + ":label,PCR"
+                forms_reached.add("label,PCR")
+                want_choices = [0x8C | IND, 0x8D | IND]
+                if choices is None:
+                    emit(c_enc1, "undecided", sitep, "choices-not-constant", "", where)
+                else:
+                    ch = list(choices)
+                    emit(c_enc1, "ok" if ch == want_choices else "finding", sitep,
+                         "choices=[%s]" % ",".join("%#04x" % x for x in ch) + ("" if ch == want_choices else "(datasheet %#04x,%#04x)" % tuple(want_choices)),
+                         "%s: label,PCR must choose between post-bytes %02X (8-bit) and %02X (16-bit), path offers %s"
+                         % (cls, want_choices[0], want_choices[1], ch), where)
+                base_ok = not opaque and (mask | want_choices[0]) == want_choices[0] and (mask | want_choices[1]) == want_choices[1]
+                emit(c_enc1, "ok" if base_ok else "finding", sitep + ":base", "base post-byte adds nothing to the PCR choice" if base_ok else "base=%#04x pollutes the PCR post-byte" % mask,
+                     "%s: the post-byte base %02X OR-ed with the PCR choice does not give the datasheet post-byte" % (cls, mask), where)
+                if size_inc is not None and max_inc is not None:
+                    good = size_inc == 0 and max_inc == 2
+                    emit(c_enc3, "ok" if good else "finding", sitep, "size+0,max+2" if good else "size+%d,max_size+%d(expected +0,+2 before the choice)" % (size_inc, max_inc),
+                         "%s: an unresolved label,PCR must report size ind_sz and max_size ind_sz+2 until the choice is made" % cls, where)
+                else:
+                    emit(c_enc3, "undecided", sitep, "size-not-affine", "", where)
+                if isinstance(add, Ctor) and add.cls == "NoneValue":
+                    emit(c_enc6, "finding", sitep, "needs-resolution-with-NoneValue", "%s: label,PCR returns no target in additional" % cls, where)
+                else:
+                    emit(c_enc6, "ok", sitep, "target carried in additional", "", where)
+            elif anr is None:
+                emit(c_enc1, "undecided", site0 + ":n,PCR", "needs-resolution-flag-not-constant", "", where)
+            else:
+                sitep = site0 + ":n,PCR"
+                if opaque:
+                    emit(c_enc1, "undecided", sitep, "opaque-post-byte", "", where)
                     continue
-                if form == "n,R":
-                    neg, lo, hi, known = value_range(ta, fa)
-                    if anr:
-                        emit(c_enc6, "finding", site0 + ":label,R", "label-as-constant-offset-encoded-from-statement-index",
-                             "%s: a label used as constant index offset (LDA L,X) reaches the constant-offset arms with its statement "
-                             "index as magnitude and additional_needs_resolution set; fix_addresses then treats the offset as a PCR target" % cls, where)
-                        continue
-                    if not known:
-                        # symbolic arm: offset not numeric at translate time
-                        sitex = site0 + ":sym,R"
-                        forms_reached.add("sym,R")
-                        core = mask & ~0x60
-                        if opaque or core not in (0x88 | IND, 0x89 | IND):
-                            emit(c_enc1, "undecided", sitex, "post=%#04x%s" % (mask, "|opaque" if opaque else ""), "", where)
-                        else:
-                            emit(c_enc1, "ok" if (mask & 0x60) == regbits else "finding", sitex + "/" + reg, "post=%#04x" % mask,
-                                 "%s: register bits wrong" % cls, where)
-                        emit(c_enc2, "ok", sitex, "self-sized(size += additional.byte_len())", "", where)
-                        continue
-                    cls4 = hi <= (16 if neg else 15)
-                    cls8 = hi <= (128 if neg else 127)
-                    sign = "-" if neg else ""
-                    valclass = "n5" if cls4 else ("n8" if cls8 else "n16")
-                    sitev = "%s:%s%s,R" % (site0, sign, valclass)
-                    core = mask & ~0x60
-                    if not (mask & 0x80) or (opaque and not (mask & 0x80)):
-                        chosen = "n5"
-                    elif core == (0x88 | IND):
-                        chosen = "n8"
-                    elif core == (0x89 | IND):
-                        chosen = "n16"
-                    else:
-                        chosen = "?%#04x" % core
-                    allowed = {"n5": ["n5", "n8", "n16"], "n8": ["n8", "n16"], "n16": ["n16"]}[valclass]
-                    if indirect:
-                        allowed = [a for a in allowed if a != "n5"]
-                    forms_reached.add(chosen + ",R")
-                    if chosen not in allowed:
-                        emit(c_enc1, "finding", sitev + "/" + reg, "form=%s,post=%#04x" % (chosen, mask),
-                             "%s: offset %s%d..%s%d with register %s is encoded with post-byte %02X (%s form), which cannot hold it or does not exist"
-                             % (cls, sign, lo, sign, hi, reg, mask, chosen), where)
-                        continue
-                    if chosen == "n5":
-                        bad = None
-                        undec = False
-                        for n in range(lo, hi + 1):
-                            val = mask
-                            for oq in opaque:
-                                x = av_int(oq, n)
-                                if x is None:
-                                    undec = True
-                                    break
-                                val |= x
-                            if undec:
-                                break
-                            want = regbits | ((-n if neg else n) & 0x1F)
-                            if val != want:
-                                bad = (n, val, want)
-                                break
-                        if undec:
-                            emit(c_enc1, "undecided", sitev, "5-bit-encoding-not-evaluable", repr(opaque)[:60], where)
-                        elif bad:
-                            emit(c_enc1, "finding", sitev + "/" + reg, "5bit(%s%d)=%#04x(datasheet %#04x)" % (sign, bad[0], bad[1], bad[2]),
-                                 "%s: 5-bit offset %s%d,%s encodes as %02X, datasheet %02X" % (cls, sign, bad[0], reg, bad[1], bad[2]), where)
-                        else:
-                            emit(c_enc1, "ok", sitev + "/" + reg, "5bit two's complement for %s%d..%s%d" % (sign, lo, sign, hi), "", where)
-                        extra = 0
-                    else:
-                        if opaque:
-                            emit(c_enc1, "undecided", sitev, "opaque-post-byte", repr(opaque)[:60], where)
-                        else:
-                            emit(c_enc1, "ok" if (mask & 0x60) == regbits else "finding", sitev + "/" + reg, "post=%#04x" % mask,
-                                 "%s: register bits %02X for %s" % (cls, mask & 0x60, reg), where)
-                        extra = 1 if chosen == "n8" else 2
-                        # content of the offset bytes
-                        if isinstance(add, Ctor) and add.cls == "NumericValue" and add.args:
-                            okc = True
-                            for n in (lo, hi, (lo + hi) // 2):
-                                x = av_int(add.args[0], n)
-                                if x is None:
-                                    okc = None
-                                    break
-                                want = (-n if neg else n) & ((1 << (8 * extra)) - 1)
-                                if x != want:
-                                    okc = (n, x, want)
-                                    break
-                            if okc is None:
-                                emit(c_enc1, "undecided", sitev, "offset-content-not-evaluable", repr(add)[:60], where)
-                            elif okc is not True:
-                                emit(c_enc1, "finding", sitev, "offset(%s%d)=%#x(two's complement %#x)" % (sign, okc[0], okc[1], okc[2]),
-                                     "%s: offset %s%d is emitted as %X, two's complement in %d byte(s) is %X" % (cls, sign, okc[0], okc[1], extra, okc[2]), where)
-                            else:
-                                emit(c_enc1, "ok", sitev, "offset bytes = two's complement", "", where)
-                    w = width_of(add, lo, hi)
-                    _three_way(emit, c_enc2, c_enc3, sitev, cls, sign + chosen + ",R", extra, size_inc, max_inc, w, choices, where)
+                if mask == (0x8C | IND):
+                    chosen, extra = "n8,PCR", 1
+                elif mask == (0x8D | IND):
+                    chosen, extra = "n16,PCR", 2
+                else:
+                    emit(c_enc1, "finding", sitep, "post=%#04x(datasheet %#04x or %#04x)" % (mask, 0x8C | IND, 0x8D | IND),
+                         "%s: n,PCR emits post-byte %02X" % (cls, mask), where)
                     continue
-                if form == "n,PCR":
-                    if anr:
-                        sitep = site0 + ":label,PCR"
-                        forms_reached.add("label,PCR")
-                        want_choices = [0x8C | IND, 0x8D | IND]
-                        if choices is None:
-                            emit(c_enc1, "undecided", sitep, "choices-not-constant", "", where)
-                        else:
-                            emit(c_enc1, "ok" if choices == want_choices else "finding", sitep,
-                                 "choices=[%s]" % ",".join("%#04x" % x for x in choices) + ("" if choices == want_choices else "(datasheet %#04x,%#04x)" % tuple(want_choices)),
-                                 "%s: label,PCR must choose between post-bytes %02X (8-bit) and %02X (16-bit), path offers %s"
-                                 % (cls, want_choices[0], want_choices[1], choices), where)
-                        base_ok = not opaque and (mask | want_choices[0]) == want_choices[0] and (mask | want_choices[1]) == want_choices[1]
-                        emit(c_enc1, "ok" if base_ok else "finding", sitep + ":base", "base=%#04x" % mask if base_ok else "base=%#04x pollutes the PCR post-byte" % mask,
-                             "%s: the post-byte base %02X OR-ed with the PCR choice does not give the datasheet post-byte" % (cls, mask), where)
-                        if size_inc is not None and max_inc is not None:
-                            good = size_inc == 0 and max_inc == 2
-                            emit(c_enc3, "ok" if good else "finding", sitep, "size+0,max+2" if good else "size+%d,max_size+%d(expected +0,+2 before the choice)" % (size_inc, max_inc),
-                                 "%s: an unresolved label,PCR must report size ind_sz and max_size ind_sz+2 until the choice is made" % cls, where)
-                        if isinstance(add, Ctor) and add.cls == "NoneValue":
-                            emit(c_enc6, "finding", sitep, "needs-resolution-with-NoneValue", "%s: label,PCR returns no target in additional" % cls, where)
-                        else:
-                            emit(c_enc6, "ok", sitep, "target carried in additional", "", where)
-                    else:
-                        sitep = site0 + ":n,PCR"
-                        core = mask
-                        if opaque:
-                            emit(c_enc1, "undecided", sitep, "opaque-post-byte", "", where)
-                            continue
-                        if core == (0x8C | IND):
-                            chosen, extra = "n8,PCR", 1
-                        elif core == (0x8D | IND):
-                            chosen, extra = "n16,PCR", 2
-                        else:
-                            emit(c_enc1, "finding", sitep, "post=%#04x(datasheet %#04x or %#04x)" % (core, 0x8C | IND, 0x8D | IND),
-                                 "%s: n,PCR emits post-byte %02X" % (cls, core), where)
-                            continue
-                        forms_reached.add(chosen)
-                        emit(c_enc1, "ok", sitep + ":" + chosen, "post=%#04x" % core, "", where)
-                        w = width_of(add, None, None)
-                        _three_way(emit, c_enc2, c_enc3, sitep + ":" + chosen, cls, chosen, extra, size_inc, max_inc, w, choices, where)
-    # ---- ENC-4 summary
+                forms_reached.add(chosen)
+                emit(c_enc1, "ok", sitep + ":" + chosen, "post=%#04x" % mask, "", where)
+                w = width_of(add, None, None)
+                _three_way(emit, c_enc2, c_enc3, sitep + ":" + chosen, cls, chosen, extra, size_inc, max_inc, w, choices, where)
     if c_enc4 is not None:
         if not invalid_accepted:
             c_enc4.ok(site0, "every return path is realised by a grammar-valid operand only", where0)
@@ -414,7 +436,6 @@ def _judge(ctx, c_enc1, c_enc2, c_enc3, c_enc4, c_enc6, cls, indirect):
             c_enc4.finding(site0, "%s:%s" % (cat, ",".join(_patterns(probes))),
                            "%s.translate() has a return path (no raise) for operands outside the indexed grammar: %s %s"
                            % (cls, cat, sorted(probes)), where0)
-    # ---- floors: every datasheet form reached
     if c_enc1 is not None:
         need = ["[n]"] if indirect else []
         need += [",R", ",R++", ",--R", "A,R", "B,R", "D,R", "n8,R", "n16,R", "label,PCR"]
@@ -423,10 +444,12 @@ def _judge(ctx, c_enc1, c_enc2, c_enc3, c_enc4, c_enc6, cls, indirect):
         for f in need:
             if f in forms_reached:
                 c_enc1.ok(site0 + ":reach:" + f, "reached", where0, nontrivial=False)
-            else:
+            elif n_paths >= 20:
                 c_enc1.finding(site0 + ":reach:" + f, "form-not-reachable", "%s.translate() has no return path for the datasheet form %s" % (cls, f), where0)
-        c_enc1.note("%s: %d return paths judged" % (cls, n_paths))
-        c_enc1.floor("%s return paths" % cls, n_paths, 20)
+            else:
+                c_enc1.undecided(site0 + ":reach:" + f, "form-not-seen", "", where0)
+        c_enc1.note("%s: %d return outcomes judged over %d operand combinations" % (cls, n_paths, len(GRAMMAR_RIGHT + PROBES_RIGHT) * len(LEFT_KINDS)))
+        c_enc1.floor("%s return outcomes" % cls, n_paths, 20)
 
 
 def _patterns(probes):
